@@ -127,6 +127,7 @@ func (c *fctx) checkOrder(n ast.Node) {
 					calls = append(calls, x)
 				}
 			}
+			c.t.order07(x, written, &calls)      // [ext:T07] slice arguments written in place by the callee
 			if o := c.t.seqWrites(x); o != nil { // [seq] atomic Store / CompareAndSwap / Add
 				written[o] = true
 				calls = append(calls, x)
@@ -165,7 +166,7 @@ func (c *fctx) checkOrder(n ast.Node) {
 func (c *fctx) taintCalls(n ast.Node, en *env) *env {
 	ast.Inspect(n, func(m ast.Node) bool {
 		if x, ok := m.(*ast.CallExpr); ok {
-			if fn, _ := c.t.calleeOf(x); fn != nil {
+			if fn, _ := c.t.calleeOf(x); fn != nil && !c.t.noRetain07(fn) { // [ext:T07] not: callees that can neither keep nor return it
 				for _, a := range x.Args {
 					if tv, ok := c.t.info.Types[a]; ok && tv.Type != nil {
 						if _, isSlice := tv.Type.Underlying().(*types.Slice); isSlice {
@@ -400,6 +401,7 @@ func (c *fctx) retTerm(en *env, vs []string) string {
 	for _, g := range c.t.ordered20(c.fi.gwrites) { // [ext:T20] written package-level state is returned
 		parts = append(parts, c.globalName20(g, en, c.fi.decl))
 	}
+	parts = append(parts, c.outNames07(en)...) // [ext:T07] slice parameters written in place are returned
 	if len(parts) == 0 {
 		return tuple(vs)
 	}
@@ -657,7 +659,7 @@ func (c *fctx) rangeStmt(x *ast.RangeStmt, en *env, lc *lctx, next kont) string 
 		}
 		set := map[types.Object]bool{}
 		t.assigned(x.Body, set)
-		if o, _ := t.rootObj(x.X); o != nil && set[o] {
+		if o, _ := t.rootObj(x.X); o != nil && set[o] && c.liveRange07(x, en) == "" { // [ext:T07] unless it is only written in place
 			t.fail(x, "range with a value variable over a slice that the body assigns")
 		}
 	}
@@ -719,8 +721,11 @@ func (c *fctx) rangeStmt(x *ast.RangeStmt, en *env, lc *lctx, next kont) string 
 				if id, ok := x.Value.(*ast.Ident); ok && id.Name == "_" {
 					return rest()
 				}
-				ev := c.fresh("v")
-				return fmt.Sprintf("do %s <- m_get %s %s;;\n%s", ev, rng, idx, bindVar(x.Value, ev, rest))
+				ev, from := c.fresh("v"), rng
+				if live := c.liveRange07(x, en); live != "" && set[t.info.Uses[ast.Unparen(x.X).(*ast.Ident)]] { // [ext:T07] the body writes the slice in place: read the current one
+					from = live
+				}
+				return fmt.Sprintf("do %s <- m_get %s %s;;\n%s", ev, from, idx, bindVar(x.Value, ev, rest))
 			}))
 			return b.String()
 		}
@@ -759,7 +764,7 @@ func (t *Translator) emitFunc(fi *funcInfo) string {
 		var name string
 		en, name = c.declare(en, p, g)
 		params = append(params, fmt.Sprintf("(%s : %s)", name, g.coq()))
-		if g.k == kSlice {
+		if g.k == kSlice && !fi.isOut07(i) { // [ext:T07] a parameter written in place is handed back to the caller instead
 			en = en.share(name) // the caller still holds the array
 		}
 	}
@@ -775,6 +780,8 @@ func (t *Translator) emitFunc(fi *funcInfo) string {
 	for _, g := range t.ordered20(fi.gwrites) { // [ext:T20]
 		stateT = append(stateT, g.ty.coq())
 	}
+	stateT = append(stateT, t.outTypes07(fi)...) // [ext:T07]
+	t.checkOuts07(fi)
 	if len(stateT) > 0 {
 		if len(rts) > 0 {
 			stateT = append(stateT, rt)
